@@ -145,6 +145,10 @@ def fam_suppress(p: Dict[str, Any], problems: List[str], w: World) -> Tuple[str,
     w.settle()
     w.advance(2000)
     t1 = w.now_ms + 100
+    if p.get("tick"):
+        # let the periodic 10 s cache/history clean-up fall between the two askers (50 ms after the first)
+        t_birth = 1_000_000.0
+        t1 = t_birth + (int((w.now_ms + 200 - t_birth) // 10_000) + 1) * 10_000 - 50
     gap, rel = p["gap"], p["rel"]  # rel: the FIRST asker's known answers relative to what the second asker knows at t2
     t2 = t1 + gap
     own_ptr = ("PTR", TA, 1, 4500, "own._a._tcp.local.")
@@ -338,6 +342,8 @@ def points(tier: str) -> List[Dict[str, Any]]:
                     continue  # hearing and asking in the very same instant: either order is legitimate
                 for second in ("QM", "QU", None):
                     pts.append({"fam": "suppress", "first": first, "gap": gap, "rel": rel, "second": second})
+                    if second == "QM" and gap in (500, 998, 999, 1000):
+                        pts.append({"fam": "suppress", "first": first, "gap": gap, "rel": rel, "second": second, "tick": True})
                     if first == "heard" and second == "QM":
                         for hq in ("ours-first", "ours-last", "ours-after-qu"):
                             pts.append({"fam": "suppress", "first": first, "gap": gap, "rel": rel, "second": second,
